@@ -200,14 +200,28 @@ var c10Alts = []string{" @immutable", " @constructor Gen, New, Ptr", " @testonly
 // type switches, double pointers, map/slice element selectors, universe-type methods, package-level initialiser) with ANY
 // annotation on any two of ten declarations, analysed by all five analyzers under symbolic configuration: every path ends
 // normally (no panic, no unwinding failure).
-func ZZC10Stress1() { c10Stress(1) }
-func ZZC10Stress2() { c10Stress(2) }
+func ZZC10Stress1() { c10Stress(1, "") }
+func ZZC10Stress2() { c10Stress(2, "") }
 
-func c10Stress(maxNonPlain int) {
+// ZZC10StressImm: the struct S is @immutable (fixed) and any one other declaration (its embedded field, its methods, the
+// generic function, the other package) carries any spelling.
+func ZZC10StressImm() { c10Stress(1, "x5") }
+
+func c10Stress(maxNonPlain int, fixedImm string) {
 	names := []string{"x1", "x2", "x3", "x4", "x5", "x6", "x7", "x8", "y1", "y2", "y3"}
 	holes := []nd.Hole{}
 	nonPlain := 0
 	for _, n := range names {
+		if n == fixedImm {
+			w := 0
+			for _, a := range c10Alts {
+				if len(a) > w {
+					w = len(a)
+				}
+			}
+			holes = append(holes, nd.Hole{Name: n, Value: pad(" @immutable", w)})
+			continue
+		}
 		v := nd.EnumPad(n, c10Alts...)
 		holes = append(holes, nd.Hole{Name: n, Value: v})
 		nonPlain += nd.IteInt(nd.HasPrefix(v, " plain"), 0, 1)
